@@ -30,6 +30,9 @@ pub enum GOp {
     /// panicking get_value
     Get { up: u8, t: u8 },
     Set { up: u8, t: u8, v: u32 },
+    /// `contains::<T>()` (which = 0), `contains_at_top` (1), `find(..).is_ok()` (2): presence is
+    /// not a borrow - live guards of any kind never change the answer
+    Present { up: u8, t: u8, which: u8 },
 }
 
 #[derive(Clone, Debug, Serialize, Deserialize)]
@@ -48,6 +51,7 @@ enum GRes {
     Panicked,
     Val(u32),
     Opt(Option<u32>),
+    Bool(bool),
     Noop,
     Unexpected(String),
 }
@@ -145,6 +149,13 @@ impl GModel {
                     if cell.writer { GRes::Panicked } else { GRes::Val(cell.val) }
                 }
             },
+            GOp::Present { up, t, which } => {
+                let start = self.levels.len() - 1 - (*up as usize).min(self.levels.len() - 1);
+                if self.arena.iter().flatten().any(|(_, gt, excl)| gt == t && *excl) {
+                    bump(c, "probe:presence asked while an exclusive guard on the type is alive", 1);
+                }
+                GRes::Bool(if *which == 1 { self.levels[start].contains_key(t) } else { self.resolve(*up, *t).is_some() })
+            }
             GOp::Set { up, t, v } => match self.resolve(*up, *t) {
                 None => GRes::Opt(None),
                 Some(l) => {
@@ -212,6 +223,9 @@ fn gop_kind(op: &GOp) -> &'static str {
         GOp::TryGet { .. } => "try_get_value",
         GOp::Get { .. } => "get_value (panicking)",
         GOp::Set { .. } => "set_value",
+        GOp::Present { which: 0, .. } => "contains",
+        GOp::Present { which: 1, .. } => "contains_at_top",
+        GOp::Present { .. } => "find",
     }
 }
 
@@ -263,6 +277,7 @@ impl World for Guards {
                 67..=84 => GOp::Drop(g.below(acquired.max(1))),
                 85..=90 => GOp::TryGet { up, t },
                 91..=93 => GOp::Get { up, t },
+                94..=96 => GOp::Present { up, t, which: g.below(3) as u8 },
                 _ => {
                     next += 1;
                     GOp::Set { up, t, v: next }
@@ -296,18 +311,20 @@ impl World for Guards {
                 let real = match op {
                     GOp::Acquire { up, t, excl, api } => {
                         let reg = reg_at(&st, *up);
-                        let r: Result<G<'_>, StateError> = with_ty!(*t, T => match (*excl, *api) {
+                        // a non-panicking accessor that panics is an answer like any other (and a wrong one)
+                        let r: Result<Result<G<'_>, StateError>, String> = with_ty!(*t, T => guarded(|| match (*excl, *api) {
                             (false, 0) => reg.try_borrow::<T>().map(|r| G::R(Ref::map(r, |x| &x.0))),
                             (false, _) => reg.try_borrow_value::<T>().map(G::R),
                             (true, 0) => reg.try_borrow_mut::<T>().map(|r| G::W(RefMut::map(r, |x| &mut x.0))),
                             (true, _) => reg.try_borrow_value_mut::<T>().map(G::W),
-                        });
+                        }));
                         match r {
-                            Ok(g) => {
+                            Ok(Ok(g)) => {
                                 arena.push(Some(g));
                                 GRes::Granted
                             }
-                            Err(e) => err_res(e),
+                            Ok(Err(e)) => err_res(e),
+                            Err(_) => GRes::Panicked,
                         }
                     }
                     GOp::AcquirePanicking { up, t, excl, api } => {
@@ -348,9 +365,10 @@ impl World for Guards {
                     },
                     GOp::TryGet { up, t } => {
                         let reg = reg_at(&st, *up);
-                        with_ty!(*t, T => match reg.try_get_value::<T>() {
-                            Ok(v) => GRes::Val(v),
-                            Err(e) => err_res(e),
+                        with_ty!(*t, T => match guarded(|| reg.try_get_value::<T>()) {
+                            Ok(Ok(v)) => GRes::Val(v),
+                            Ok(Err(e)) => err_res(e),
+                            Err(_) => GRes::Panicked,
                         })
                     }
                     GOp::Get { up, t } => {
@@ -362,7 +380,21 @@ impl World for Guards {
                     }
                     GOp::Set { up, t, v } => {
                         let reg = reg_at(&st, *up);
-                        with_ty!(*t, T => GRes::Opt(reg.set_value::<T>(*v)))
+                        with_ty!(*t, T => match guarded(|| reg.set_value::<T>(*v)) {
+                            Ok(r) => GRes::Opt(r),
+                            Err(_) => GRes::Panicked,
+                        })
+                    }
+                    GOp::Present { up, t, which } => {
+                        let reg = reg_at(&st, *up);
+                        with_ty!(*t, T => match guarded(|| match *which {
+                            0 => reg.contains::<T>(),
+                            1 => reg.contains_at_top::<T>(),
+                            _ => reg.find::<T>().is_ok(),
+                        }) {
+                            Ok(b) => GRes::Bool(b),
+                            Err(_) => GRes::Panicked,
+                        })
                     }
                 };
                 fp.str(gop_kind(op));
@@ -436,6 +468,8 @@ fn res_kind(r: &GRes) -> &'static str {
         GRes::Val(_) => "value",
         GRes::Opt(Some(_)) => "some",
         GRes::Opt(None) => "none",
+        GRes::Bool(true) => "present",
+        GRes::Bool(false) => "absent",
         GRes::Noop => "noop",
         GRes::Unexpected(_) => "unexpected",
     }
@@ -450,6 +484,38 @@ pub struct MultiCase {
     pub layout: Vec<BTreeMap<u8, u32>>,
     /// indices into the catalogue to run (empty = all)
     pub only: Vec<usize>,
+    /// `Some(i)`: only request i of the marker-type requests (narrowed case)
+    #[serde(default)]
+    pub zst: Option<usize>,
+}
+
+/// Requests that name field-less marker states `Z0..Z2` (zero-sized, so two distinct states can
+/// share an address) next to payload types: (tuple over 0..=2 markers / 10.. payload T0,T1,
+/// real request). The decision depends on the types alone.
+type ZReq = (&'static [u8], fn(&mut St) -> Result<(), StateError>, fn(&mut St));
+fn zst_requests() -> Vec<ZReq> {
+    macro_rules! z {
+        ($tags:expr, $($T:ty),+) => {
+{
+                const TAGS: &[u8] = $tags;
+                let r: ZReq = (TAGS, |st: &mut St| st.try_get_multiple_mut::<($($T),+)>().map(|_| ()), |st: &mut St| { let _ = st.get_multiple_mut::<($($T),+)>(); });
+                r
+            }
+        };
+    }
+    vec![
+        z!(&[0, 1], Z0, Z1),
+        z!(&[1, 0], Z1, Z0),
+        z!(&[0, 2], Z0, Z2),
+        z!(&[0, 1, 2], Z0, Z1, Z2),
+        z!(&[2, 1, 0], Z2, Z1, Z0),
+        z!(&[10, 0, 1], T0, Z0, Z1),
+        z!(&[0, 10, 2, 11], Z0, T0, Z2, T1),
+        z!(&[10, 0], T0, Z0),
+        z!(&[0, 0], Z0, Z0),
+        z!(&[0, 1, 0], Z0, Z1, Z0),
+        z!(&[1, 10, 1], Z1, T0, Z1),
+    ]
 }
 
 pub struct Multi;
@@ -479,7 +545,7 @@ impl World for Multi {
                 layout[l2].insert(t, next);
             }
         }
-        MultiCase { layout, only: Vec::new() }
+        MultiCase { layout, only: Vec::new(), zst: None }
     }
 
     fn execute(&self, case: &MultiCase) -> Outcome<MultiCase> {
@@ -493,13 +559,85 @@ impl World for Multi {
         let mut next = 0u32;
         let _ = &mut next;
         let shape: Vec<Vec<u8>> = case.layout.iter().map(|m| m.keys().copied().collect()).collect();
-        let idxs: Vec<usize> = if case.only.is_empty() { (0..cat.len()).collect() } else { case.only.clone() };
+        let idxs: Vec<usize> = if case.zst.is_some() { Vec::new() } else if case.only.is_empty() { (0..cat.len()).collect() } else { case.only.clone() };
+        // marker types: Zk lives wherever the layout holds probe type k (k < 3)
+        if case.only.is_empty() {
+            let mut zs: St = State::new();
+            for (i, level) in case.layout.iter().enumerate() {
+                if i > 0 {
+                    apply_real(&Op::Push, &mut zs);
+                }
+                for (t, v) in level {
+                    apply_real(&Op::Insert(*t, *v), &mut zs);
+                    match t {
+                        0 => { zs.insert(Z0); }
+                        1 => { zs.insert(Z1); }
+                        2 => { zs.insert(Z2); }
+                        _ => {}
+                    }
+                }
+            }
+            let present = |tag: u8| case.layout.iter().any(|m| m.contains_key(&(tag % 10)));
+            for (zi, (tags, f, f_panicking)) in zst_requests().into_iter().enumerate() {
+                if case.zst.map(|only| only != zi).unwrap_or(false) {
+                    continue;
+                }
+                out.evaluations += 1;
+                out.steps += 1;
+                let mut sorted = tags.to_vec();
+                sorted.sort();
+                sorted.dedup();
+                let repeats = sorted.len() != tags.len();
+                let missing = tags.iter().any(|t| !present(*t));
+                let got = guarded(|| f(&mut zs));
+                let kind = match (&got, repeats, missing) {
+                    (Ok(Err(StateError::MultipleBorrowConflict(_))), true, _) => "repeat",
+                    (Ok(Err(StateError::NotFound(_))), false, true) => "missing",
+                    (Ok(Ok(())), false, false) => {
+                        bump(&mut out.counters, "probe:multi-borrow of several zero-sized states granted", 1);
+                        "granted"
+                    }
+                    _ => {
+                        let shown = match &got {
+                            Ok(Ok(())) => "Ok".to_string(),
+                            Ok(Err(e)) => format!("Err({e})"),
+                            Err(p) => format!("panic ({p})"),
+                        };
+                        out.violation = Some((
+                            Violation::new(
+                                format!("multi-borrow-decision zero-sized arity={} repeats={repeats} missing={missing}", tags.len()),
+                                format!("request #{zi} over marker (zero-sized) states {tags:?} (0..2 = markers, 10.. = payload types; repeats={repeats}, missing={missing}): got {shown}"),
+                            ),
+                            MultiCase { layout: case.layout.clone(), only: Vec::new(), zst: Some(zi) },
+                        ));
+                        break;
+                    }
+                };
+                let panicked = guarded(|| f_panicking(&mut zs)).is_err();
+                if panicked != (repeats || missing) {
+                    out.violation = Some((
+                        Violation::new(
+                            format!("multi-borrow-panicking-decision zero-sized arity={} invalid={}", tags.len(), repeats || missing),
+                            format!("get_multiple_mut request #{zi} over marker states {tags:?}: {} although the request is {}", if panicked { "panicked" } else { "returned references" }, if repeats || missing { "invalid" } else { "valid" }),
+                        ),
+                        MultiCase { layout: case.layout.clone(), only: Vec::new(), zst: Some(zi) },
+                    ));
+                    break;
+                }
+                let mut fp = Fp::new();
+                fp.str(&format!("zst{tags:?}{kind}{shape:?}"));
+                out.fingerprints.push(fp.0);
+            }
+            if out.violation.is_some() {
+                return out;
+            }
+        }
         for ci in idxs {
             let (tuple, f, f_panicking) = cat[ci];
             out.evaluations += 1;
             out.steps += 1;
             let before: Vec<BTreeMap<u8, u32>> = model.scopes.iter().map(|m| m.iter().map(|(k, v)| (*k, *v as u32)).collect()).collect();
-            let narrowed = || MultiCase { layout: before.clone(), only: vec![ci] };
+            let narrowed = || MultiCase { layout: before.clone(), only: vec![ci], zst: None };
             next = 1_000_000 + (ci as u32) * 64;
             let vals: Vec<u32> = tuple.iter().map(|_| { next += 1; next }).collect();
             let mut sorted = tuple.to_vec();
